@@ -505,7 +505,7 @@ func c11Render(resp *logical.Response, err error) string {
 	return sb.String()
 }
 
-func (w *c11World) do(req *logical.Request, hdrSecret string) *c11Result {
+func (w *c11World) do(req *logical.Request, hdrSecret string, extraHdrs ...string) *c11Result {
 	w.mu.Lock()
 	w.reqN++
 	id := fmt.Sprintf("vreq-%s-%d", w.tag, w.reqN)
@@ -513,6 +513,9 @@ func (w *c11World) do(req *logical.Request, hdrSecret string) *c11Result {
 	req.ID = id
 	if hdrSecret != "" {
 		req.Headers = map[string][]string{"X-Verif-Secret": {hdrSecret}, "X-Verif-Plain": {"plain-header-value"}, "X-Verif-Unlisted": {"unl" + hdrSecret}}
+		for i := 0; i+1 < len(extraHdrs); i += 2 {
+			req.Headers[extraHdrs[i]] = []string{extraHdrs[i+1]}
+		}
 	}
 	resp, err := w.core.HandleRequest(c11Ctx(), req)
 	rendered := c11Render(resp, err)
@@ -638,7 +641,10 @@ type c11Judge struct {
 	access   []string // accessors (never plaintext on hmac_accessor devices)
 	reqSecs  []c11Sec
 	respSecs []c11Sec
-	hdrs     []string
+	hdrs     []string // header values that must not appear in plaintext (HMAC-configured or not configured)
+	hdrHMAC  []string // header values whose salted HMAC must stand in (currently configured with hmac=true)
+	hdrPlain string   // value of a header currently configured with hmac=false (plaintext permitted)
+	hdrHist  string   // configuration history of this case's own header
 	ids      []string
 }
 
@@ -795,7 +801,7 @@ func (j *c11Judge) entries(main *c11Result, expectReqData, expectRespData bool) 
 			}
 			for _, h := range j.hdrs {
 				if bytes.Contains(e.entry, []byte(h)) {
-					bad("C11-plaintext-header-in-entry", "contains the value of a request header that is HMAC-configured or not configured for auditing", h)
+					bad("C11-plaintext-header-in-entry", "contains the value of a request header whose current audit configuration is hmac=true or that is not configured for auditing (history of the case's own header: "+j.hdrHist+")", h)
 				}
 			}
 			for _, s := range append(append([]c11Sec{}, j.reqSecs...), j.respSecs...) {
@@ -859,11 +865,21 @@ func (j *c11Judge) entries(main *c11Result, expectReqData, expectRespData bool) 
 			if expectRespData && e.Phase == "response" {
 				check(j.respSecs)
 			}
-			if len(j.hdrs) > 0 && !bytes.Contains(e.entry, []byte(j.hdrs[0])) {
-				if bytes.Contains(e.entry, []byte(c11Ref(saltVal, j.hdrs[0]))) {
+			for _, hv := range j.hdrHMAC {
+				if bytes.Contains(e.entry, []byte(hv)) {
+					continue // already reported as plaintext
+				}
+				if bytes.Contains(e.entry, []byte(c11Ref(saltVal, hv))) {
 					r.Count("header_hmacs_verified", 1)
 				} else {
-					bad("C11-hmac-missing-in-entry", "lacks the salted HMAC of the HMAC-configured audited header", "\x00")
+					bad("C11-hmac-missing-in-entry", "lacks the salted HMAC of a request header whose current audit configuration is hmac=true", "\x00")
+				}
+			}
+			if j.hdrPlain != "" {
+				if bytes.Contains(e.entry, []byte(j.hdrPlain)) {
+					r.Count("plain_configured_header_seen_plain", 1)
+				} else {
+					r.Count("plain_configured_header_not_plain", 1)
 				}
 			}
 		}
@@ -928,6 +944,7 @@ func (w *c11World) runCase(seed int64, cs *c11Case) *c11Judge {
 	}
 	hdr := "hdr" + rng.Canary()
 	j.hdrs = []string{hdr, "unl" + hdr}
+	j.hdrHMAC = []string{hdr}
 
 	setup := func(label string, req *logical.Request) *c11Result {
 		res := w.do(req, "")
@@ -947,6 +964,48 @@ func (w *c11World) runCase(seed int64, cs *c11Case) *c11Judge {
 		}
 		return res.Resp.WrapInfo.Token
 	}
+
+	// Generated configuration history of a header owned by this case: the
+	// audited-headers API is create-or-overwrite, so what counts for the
+	// entries of the main request is the last successfully applied setting.
+	dynName := fmt.Sprintf("X-Verif-Dyn-%08x", uint32(c11Hash(cs.ID)))
+	dynVal := "dyn" + rng.Canary()
+	dynState := "absent"
+	var hist []string
+	for i, n := 0, 1+rng.Intn(3); i < n; i++ {
+		var hreq *logical.Request
+		next := ""
+		switch rng.Intn(7) {
+		case 0, 1, 2:
+			hreq, next = &logical.Request{Operation: logical.UpdateOperation, Path: "sys/config/auditing/request-headers/" + dynName, ClientToken: w.root, Data: map[string]any{"hmac": false}}, "plain"
+		case 3, 4, 5:
+			hreq, next = &logical.Request{Operation: logical.UpdateOperation, Path: "sys/config/auditing/request-headers/" + dynName, ClientToken: w.root, Data: map[string]any{"hmac": true}}, "hmac"
+		default:
+			hreq, next = &logical.Request{Operation: logical.DeleteOperation, Path: "sys/config/auditing/request-headers/" + dynName, ClientToken: w.root}, "absent"
+		}
+		if setup("header-config:"+next, hreq) == nil {
+			return j
+		}
+		r.Count("header_config_transition:"+dynState+"->"+next, 1)
+		dynState = next
+		hist = append(hist, next)
+	}
+	j.hdrHist = strings.Join(hist, " -> ")
+	r.Count("header_final_state:"+dynState, 1)
+	switch dynState {
+	case "hmac":
+		j.hdrs = append(j.hdrs, dynVal)
+		j.hdrHMAC = append(j.hdrHMAC, dynVal)
+	case "absent":
+		j.hdrs = append(j.hdrs, dynVal)
+	default:
+		j.hdrPlain = dynVal
+	}
+	defer func() {
+		// keep the audited-headers table small; not judged
+		w.setScript(nil)
+		w.do(&logical.Request{Operation: logical.DeleteOperation, Path: "sys/config/auditing/request-headers/" + dynName, ClientToken: w.root}, "")
+	}()
 
 	var req *logical.Request
 	expectReqData, expectRespData := false, false
@@ -1013,7 +1072,7 @@ func (w *c11World) runCase(seed int64, cs *c11Case) *c11Judge {
 	}
 
 	w.setScript(cs.Pattern)
-	res := w.do(req, hdr)
+	res := w.do(req, hdr, dynName, dynVal)
 	w.setScript(nil)
 	j.ids = append(j.ids, res.ID)
 	j.learn(res)
@@ -1136,7 +1195,7 @@ func TestVerif_C11_Order(t *testing.T) {
 	r := kit.NewResult(t, "c11-order", seed, "a case is (k devices, one assignment of ok/err/panic to every (device, phase), request kind) run against a real Core; kinds: read, write, list, raw-body, data+error, login, wrapped response, unwrap (own token / third party), denied, bogus token, token create, wrapped token create, kv write with read-back; it is non-trivial when at least one device call is scripted to fail or panic; all 3^(2k) assignments for k<=3 (k<=4 thorough) and a seeded sample of k+1")
 	defer r.Write(t)
 	r.Assume("'accepted' = the device's LogRequest/LogResponse returned nil; 'routed to a backend' = HandleRequest of the mounted backend (own recording backends, proxies in front of sys/, auth/token/, cubbyhole/) was entered with the client's request id; internal sub-requests without that id are not judged")
-	r.Assume("extension beyond the statement's list: values of request headers configured for auditing with hmac=true, or not configured at all, must not appear in entries (anchor audited_headers.go)")
+	r.Assume("extension beyond the statement's list: values of request headers whose current audit configuration (last successfully applied create-or-overwrite / delete call, generated histories of 1..3 steps per case) is hmac=true, or that are not configured, must not appear in entries (anchor audited_headers.go)")
 
 	var cases []*c11Case
 	if oc := kit.OnlyCase(); oc != "" {
@@ -1203,6 +1262,12 @@ func TestVerif_C11_Order(t *testing.T) {
 	r.Require("token_fields_checked", 2000)
 	r.Require("data_hmacs_verified", 1000)
 	r.Require("header_hmacs_verified", 500)
+	r.Require("header_config_transition:plain->hmac", 100)
+	r.Require("header_config_transition:hmac->plain", 100)
+	r.Require("header_config_transition:hmac->absent", 20)
+	r.Require("header_final_state:hmac", 500)
+	r.Require("header_final_state:absent", 100)
+	r.Require("plain_configured_header_seen_plain", 200)
 	r.Require("list_keys_elided", 5)
 	for _, kind := range []string{"read", "write", "list", "rawbody", "login", "wrap", "unwrap", "unwrap3p", "tokencreate", "wraptokencreate", "kvwrite"} {
 		r.Require("delivered:"+kind, 5)
